@@ -1290,11 +1290,11 @@ Eval vm_compute in failing ok_actions 0 cases.
 Eval vm_compute in failing ok_nowrites 0 cases.
 Eval vm_compute in failing ok_trace 0 cases.
 Eval vm_compute in failing ok_premises 0 cases.
-(* premise 1 evaluated on everything that was OBSERVED, all calls taken as concurrent threads *)
-Eval vm_compute in (if no_shared_writes_fp (List.map (fun c : case => rfootprint (snd (fst c))) cases)
+(* premise 1 evaluated on what was OBSERVED, the first 80 calls taken as concurrent threads *)
+Eval vm_compute in (if no_shared_writes_fp (List.map (fun c : case => rfootprint (snd (fst c))) (firstn 80 cases))
                     then @nil nat else [0]).
 (* ... and on the model's action lists of the same calls *)
-Eval vm_compute in (if no_shared_writes (init_threads (List.map (fun c : case => prog_of (fst (fst c))) cases))
+Eval vm_compute in (if no_shared_writes (init_threads (List.map (fun c : case => prog_of (fst (fst c))) (firstn 80 cases)))
                     then @nil nat else [0]).
 '''
 
@@ -1712,6 +1712,19 @@ def main(argv=None):
         minimise(run, cmp, alone)
     for s in infra[:8]:
         run.note('infrastructure: ' + s)
+    # keep at most 3 failures per (kind, object / call); most concrete witnesses first
+    prio = {'sequence': 0, 'forced': 1, 'forced-import': 1}
+    seen_f = {}
+    kept = []
+    for f in sorted(run.failures, key=lambda f: prio.get(f['data'].get('mode'), 2)):
+        k = (f['kind'], f['data'].get('object') or key_of(f['data'].get('call')), f['data'].get('how') or f['data'].get('mode'))
+        seen_f[k] = seen_f.get(k, 0) + 1
+        if seen_f[k] <= 3:
+            kept.append(f)
+    dropped = len(run.failures) - len(kept)
+    run.failures = kept
+    if dropped:
+        run.note('%d further oracle failures of the same (kind, object/call, mechanism) not listed' % dropped)
     sample_row = rows[0] if rows else None
     run.finish({
         'evaluations': len(everything) + len(again) + n_conc_calls + seq['calls'] + len(rows),
